@@ -339,7 +339,7 @@ fn split_comment_token(token: Token) -> Vec<Token> {
             line,
             column,
             length,
-            pos: pos as u32 + length,
+            pos: token.pos + pos as u32,
             source: token.source,
         };
         ret.push(token);
